@@ -33,7 +33,7 @@ let fn_line (ws : string list) : string =
     both (oc out_str (impl_substring_from (fuel_of fuel) s (zi f))) (out_str (spec_substring_from s (zi f)))
   | ["substring"; fuel; s; f; c] ->
     let s = str_arg s in
-    both (oc out_str (impl_substring (fuel_of fuel) s (zi f) (zi c))) (osp out_str (spec_substring s (zi f) (zi c)))
+    both (oc out_str (impl_substring (fuel_of fuel) s (zi f) (zi c))) (out_str (spec_substring s (zi f) (zi c)))
   | ["lpad"; fuel; s; n; p] ->
     let s = str_arg s and p = str_arg p in
     both (oc out_str (impl_lpad (fuel_of fuel) s (zi n) p)) (out_str (spec_lpad s (zi n) p))
@@ -58,7 +58,7 @@ let fn_line (ws : string list) : string =
   | ["contains"; s; p] -> let s = str_arg s and p = str_arg p in both (out_bool (contains s p)) (out_bool (contains s p))
   | ["split_part"; s; d; n] ->
     let s = str_arg s and d = str_arg d in
-    both (oc out_str (impl_split_part s d (zi n))) (osp out_str (spec_split_part s d (zi n)))
+    both (oc out_str (impl_split_part s d (zi n))) (out_str (spec_split_part s d (zi n)))
   | ["valid"; h] -> let b = utf8_validb (bytes_of_hex (String.sub h 1 (String.length h - 1))) in both (out_bool b) (out_bool b)
   | _ -> failwith ("bad fn line: " ^ String.concat " " ws)
 
